@@ -36,6 +36,20 @@ CHECKS = {
         "Identifiers from the documented alphabet minus reserved tokens and 6-digit date-shaped words; file globs compared in stored form.",
         "§4 C04",
     ),
+    "C05": (
+        "model_checking",
+        "explicit-state exploration of create/reindex histories over an exhaustive family of initial directories, every transition executed by the real CLI",
+        "For every ZID-less item variant (kind x priority x long date x spacing x tail) and every ordered pair of a 12-item alphabet in 5 layouts, with and without a pre-existing next_ids.json at carry points, histories over {create, reindex} (with and without the day advancing) are run through the real CLI in fresh processes; in every state: every note has a ZID, the raw index equals the recompiled files field by field (page, line, section path, block, ZID, kind, priority, body, dates, tags, links, properties), each file equals the original except for predicted first lines of formerly ZID-less items, and later runs change nothing.",
+        "ZID-less items with a hand-written modify date are excluded; trusts M3 (sqlite3 reader) and the line-prediction model.",
+        "§4 C05",
+    ),
+    "C06": (
+        "model_checking",
+        "explicit-state BFS over edit/reindex/day-advance histories on real directories with a differential oracle (incremental index vs fresh db create)",
+        "Breadth-first search to depth 3 (quick) / 4 (thorough) from three initial states over 14 events; states are real directories deduplicated on a canonical digest (files, raw index, hash map, next ids, whitelist, day, guards). In every state reached by a plain reindex the raw index must equal that of a fresh db create on a copy of the final files, files must be settled, and 12 queries must be answered identically by both indexes.",
+        "One small directory and a fixed menu of edits; rows no query can observe (orphan tag/link rows) are not judged.",
+        "§4 C06",
+    ),
     "C07": (
         "model_checking",
         "exhaustive enumeration of the finite successor/allocation chain + explicit-state BFS over allocation histories on the real ZIDManager",
